@@ -1,6 +1,7 @@
-# setup: full .vo build of the Coq development from files on disk (offline)
+# setup: full .vo build of the Coq development from files on disk (offline). A file that fails to build
+# is reported here and again (as a broken proof obligation) by the check of the property it serves.
 .PHONY: setup clean
 setup:
-	PYTHONPATH=/repo:/verif /venv/bin/python -c "from harness import common; import sys; ok, log = common.coq_make(['all'], timeout=3000); print(log[-3000:]); sys.exit(0 if ok else 1)"
+	PYTHONPATH=/repo:/verif /venv/bin/python -c "from translate import gen; print(gen.main()); from harness import common; ok, log = common.coq_make(['all'], timeout=3400); print(log[-2500:]); print('SETUP', 'ok' if ok else 'with build errors (see above)')"
 clean:
 	cd coq && (test -f Makefile && $(MAKE) clean || true); rm -rf build
